@@ -73,13 +73,16 @@ def probe_chunk(job: dict) -> list[dict]:
             ty = f.inputs[0].ty
             ctx = QuantifiedToHugrContext(f.params)
             o["accepted"] = True
-            o["same"] = _norm_real(tt.proj_type(ty)) == _norm_spec(t, names)
-            if not o["same"]:
-                o["proj"] = tt.proj_type(ty)
-            o["copyable"] = bool(ty.copyable)
-            o["droppable"] = bool(ty.droppable)
-            o["hugr_bound"] = ty.hugr_bound == ht.TypeBound.Copyable
-            o["type_bound"] = ty.to_hugr(ctx).type_bound() == ht.TypeBound.Copyable
+            try:
+                o["same"] = _norm_real(tt.proj_type(ty)) == _norm_spec(t, names)
+                if not o["same"]:
+                    o["proj"] = tt.proj_type(ty)
+                o["copyable"] = bool(ty.copyable)
+                o["droppable"] = bool(ty.droppable)
+                o["hugr_bound"] = ty.hugr_bound == ht.TypeBound.Copyable
+                o["type_bound"] = ty.to_hugr(ctx).type_bound() == ht.TypeBound.Copyable
+            except Exception as e:  # noqa: BLE001  (the code under test crashed: an observation)
+                o["crash"] = f"{type(e).__name__}: {str(e)[:200]}"
             out.append(o)
     finally:
         gp.unload(mod)
